@@ -51,6 +51,11 @@ def make_cases(tier, rng):
     fwd_bad = json.loads(json.dumps(fwd))
     fwd_bad["fields"] = fwd_bad["fields"][:3]
     cases.append(("same_forward_ref_two_ns_one_undefined", fwd_bad, schemadoc.render(fwd_bad, rng, 0), "invalid:unknown_ref"))
+    # fixed sizes beyond 32 bits (the specification names them through SizeText's windows; nothing is allocated for a schema)
+    for bi, big in enumerate((2 ** 31, 2 ** 32, 2 ** 32 + 5, 2 ** 53 + 1, 2 ** 63, 2 ** 64 - 1)):
+        tb = scopes.rec("a.Holder", [("f", scopes.fixed(f"a.Big{bi}", big)), ("g", scopes.arr(scopes.ref(f"a.Big{bi}")))])
+        docb = schemadoc.spell(tb, rng, plain=(bi % 2 == 0))
+        cases.append((f"fixed_size_{big}", docb, schemadoc.render(docb, rng, bi % 3), "valid"))
     # a reference that designates a fullname nobody defines, while a type of the same short name exists in the null namespace (or
     # in another namespace): the reference does not fall back to it
     kind0 = schemadoc.obj("enum", hasName=True, name=TT("Kind"), hasSymbols=True, symbols=[TT("S")])
